@@ -373,14 +373,16 @@ func GroupByIWithContext[T any, K comparable](iteratee func(ctx context.Context,
 						}
 					},
 					func(ctx context.Context, err error) {
-						destination.ErrorWithContext(ctx, err)
+						// The groups first: terminating the destination runs the teardown below,
+						// which completes every group that is still open.
 						notifyAll(func(o Observer[T]) { o.ErrorWithContext(ctx, err) })
+						destination.ErrorWithContext(ctx, err)
 
 						clearGroups()
 					},
 					func(ctx context.Context) {
-						destination.CompleteWithContext(ctx)
 						notifyAll(func(o Observer[T]) { o.CompleteWithContext(ctx) })
+						destination.CompleteWithContext(ctx)
 
 						clearGroups()
 					},
